@@ -43,8 +43,9 @@ ASSUMPTIONS = [
     "zone rules come from the tz database shipped with the interpreter for both pytz and zoneinfo",
 ]
 
-ZONES = ["America/Los_Angeles", "UTC", "Europe/Berlin", "Asia/Kolkata", "Australia/Lord_Howe"]
-DST = [1552212000, 1572771600, 1553994000, 1572138000, 1570289400, 1554564600, 1583661600, 1604221200]
+# Lord Howe, Adelaide and St John's change their clocks at instants that are not on a whole UTC hour
+ZONES = ["America/Los_Angeles", "UTC", "Europe/Berlin", "Asia/Kolkata", "Australia/Lord_Howe", "Australia/Adelaide", "America/St_Johns"]
+DST = [1552212000, 1572771600, 1553994000, 1572138000, 1570289400, 1554564600, 1583661600, 1604221200, 1570293000, 1554568200, 1552195800, 1572755400]
 BASE = "http://fake.acn/api/v9/"
 
 
@@ -201,7 +202,7 @@ def prop_many_pages(spec, rec):
 
 @st.composite
 def many_pages_cases(draw):
-    return {"n_pages": draw(st.sampled_from([300, 1000, 1200, 2500])), "sizes": draw(st.lists(st.sampled_from([1, 1, 1, 0, 2]), min_size=1, max_size=4)), "timeseries": draw(st.booleans())}
+    return {"n_pages": draw(st.sampled_from([300, 1200, 2500, 3500, 5000])), "sizes": draw(st.lists(st.sampled_from([1, 1, 1, 0, 2]), min_size=1, max_size=4)), "timeseries": draw(st.booleans())}
 
 
 @st.composite
